@@ -8,19 +8,44 @@ CHILD_KEYS = ("e", "l", "r", "c", "t", "f", "i", "init", "els", "scrut", "body",
 LIST_KEYS = ("args", "es", "stmts", "arms", "fields", "params")
 
 
+ORDER = {
+    "block": ("stmts", "expr"),
+    "if": ("c", "t", "e"),
+    "match": ("scrut", "arms"),
+    "let": ("init", "els"),
+    "letexpr": ("init",),
+    "call": ("f", "args"),
+    "bin": ("l", "r"),
+    "assign": ("r", "l"),       # the right-hand side is evaluated first
+    "assignop": ("r", "l"),
+    "index": ("e", "i"),
+    "struct": ("fields", "base"),
+    "closure": ("body",),
+    "loop": ("body",),
+}
+
+
 def children(e):
+    """Child nodes in evaluation (source) order."""
     if not isinstance(e, dict):
         return
-    for k in CHILD_KEYS:
+    keys = ORDER.get(e.get("k"))
+    if keys is None:
+        keys = CHILD_KEYS + LIST_KEYS
+    for k in keys:
         v = e.get(k)
         if isinstance(v, dict):
             yield v
-    for k in LIST_KEYS:
-        v = e.get(k)
-        if isinstance(v, list):
+        elif isinstance(v, list):
             for x in v:
                 if isinstance(x, dict):
-                    yield x
+                    # match arms / struct fields are wrappers without a kind: descend into their parts in order
+                    if "k" not in x:
+                        for kk in ("guard", "body", "e"):
+                            if isinstance(x.get(kk), dict):
+                                yield x[kk]
+                    else:
+                        yield x
 
 
 def walk(e):
@@ -454,9 +479,11 @@ def visit_with_conds(root, pred):
             return
         if k == "if":
             visit(e["c"], frames)
-            visit(e["t"], frames + _cond_frames(e["c"], True))
+            tf = [dict(f, node=e, branch="t") for f in _cond_frames(e["c"], True)]
+            visit(e["t"], frames + tf)
             if "e" in e:
-                visit(e["e"], frames + _cond_frames(e["c"], False))
+                ef = [dict(f, node=e, branch="e") for f in _cond_frames(e["c"], False)]
+                visit(e["e"], frames + ef)
             return
         if k == "match":
             visit(e["scrut"], frames)
